@@ -143,6 +143,9 @@ func raceLocal(file string, timeout time.Duration, all bool, only []string) []So
 // Discharge decides one obligation. dir receives the query files.
 func Discharge(o *Obligation, dir string, timeout time.Duration, thorough bool) Verdict {
 	start := time.Now()
+	if !o.Cover && o.Goal != nil && o.Goal.IsTrue() {
+		return Verdict{Status: "discharged", By: "by-construction"}
+	}
 	base := filepath.Join(dir, sanitizeFile(o.Name))
 	file := base + ".smt2"
 	script := o.Script(smtHeader)
